@@ -296,7 +296,10 @@ type symIdP struct {
 	honest   bool
 	yield    bool
 	lastBody kitBody
-	answer   int // 0 transport error, 1 non-200, 2 body breaks off, 3 status 200 with a body
+	answer   int // what the last request was answered with (answerKind), -1 before any request
+	answerKind int
+	status     int
+	bodyText   string
 }
 
 type kitBody struct {
@@ -311,6 +314,20 @@ type kitBody struct {
 	expKind   int
 }
 
+// prepare draws all nondeterminism of the provider before the check runs, so that states which
+// took different provider behaviours consumed the same inputs and can be merged where they
+// reconverge. answerKind: 0 transport error, 1 non-200 status, 2 body breaks off, 3 body.
+func (p *symIdP) prepare() {
+	p.answerKind = 3
+	p.status = 500
+	if !p.honest {
+		p.answerKind = int(vn.Int("idp-answer", 0, 3))
+		p.status = int(vn.Int("idp-status", 100, 599))
+		vn.Assume(p.status != 200)
+	}
+	p.bodyText = p.body()
+}
+
 func (p *symIdP) RoundTrip(req *http.Request) (*http.Response, error) {
 	if p.yield {
 		vn.Yield("idp")
@@ -322,24 +339,17 @@ func (p *symIdP) RoundTrip(req *http.Request) (*http.Response, error) {
 		call.form = form
 	}
 	p.calls = append(p.calls, call)
-	if !p.honest {
-		switch vn.Choice("idp-answer", 3) {
-		case 0:
-			return nil, errInjected
-		case 1:
-			st := int(vn.Int("idp-status", 100, 599))
-			vn.Assume(st != 200)
-			p.answer = 1
-			return &http.Response{StatusCode: st, Body: io.NopCloser(strings.NewReader(""))}, nil
-		}
-		if vn.Bool("idp-body-breaks-off") {
-			p.answer = 2
-			return &http.Response{StatusCode: 200, Body: io.NopCloser(vn.FailingReader())}, nil
-		}
+	p.answer = p.answerKind
+	if p.answerKind == 0 {
+		return nil, errInjected
 	}
-	body := p.body()
-	p.answer = 3
-	return &http.Response{StatusCode: 200, Body: io.NopCloser(strings.NewReader(body))}, nil
+	if p.answerKind == 1 {
+		return &http.Response{StatusCode: p.status, Body: io.NopCloser(strings.NewReader(""))}, nil
+	}
+	if p.answerKind == 2 {
+		return &http.Response{StatusCode: 200, Body: io.NopCloser(vn.FailingReader())}, nil
+	}
+	return &http.Response{StatusCode: 200, Body: io.NopCloser(strings.NewReader(p.bodyText))}, nil
 }
 
 // body builds the token-endpoint answer. All kinds are symbolic integers (the JSON / JWT stubs
@@ -389,13 +399,13 @@ type symJWKS struct {
 	calls int
 	fail  bool
 	other bool
-	faults bool
+	failNext bool
 }
 
 func (j *symJWKS) Get(_ context.Context, cfg *oidcv1.OIDCConfig) (jwk.Set, error) {
 	j.calls++
 	vn.Assert("kit/jwks-asked-with-filter-config", cfg == j.cfg)
-	if j.faults && vn.Bool("fault-jwks") {
+	if j.failNext {
 		j.fail = true
 		return nil, errInjected
 	}
@@ -446,8 +456,12 @@ type kitEnv struct {
 
 func kitHandler(cfg *oidcv1.OIDCConfig, store *symStore, faults bool, honestIdP bool) *kitEnv {
 	env := &kitEnv{cfg: cfg, store: store, now: vn.Time("now")}
-	env.idp = &symIdP{clientID: cfg.ClientId, honest: honestIdP, now: env.now}
-	env.jwks = &symJWKS{cfg: cfg, faults: faults}
+	env.idp = &symIdP{clientID: cfg.ClientId, honest: honestIdP, now: env.now, answer: -1}
+	env.idp.prepare()
+	env.jwks = &symJWKS{cfg: cfg}
+	if faults {
+		env.jwks.failNext = vn.Bool("fault-jwks")
+	}
 	env.gen = &symGen{}
 	now := env.now
 	env.h = &oidcHandler{
